@@ -197,6 +197,9 @@ def main():
                 if len(samples) < 4 and o["kind"] in ("post", "inv"):
                     samples.append({"unit": r["unit"], "obligation": o["name"], "kind": o["kind"],
                                     "line": o["lineno"], "status": "proved", "path": o.get("trace")})
+            elif o["status"] == "refuted" and ".auto." in o["name"]:
+                # a mechanically derived loop invariant that does not hold: the derivation was too weak, not the code wrong
+                undecided.append((r["unit"], o["name"], "derived scan invariant not inductive"))
             elif o["status"] == "refuted":
                 refuted.append((r, o))
             else:
